@@ -39,7 +39,7 @@ func replay(in string, nk, capacity int, explain string, logall bool) {
 		rng := rand.New(rand.NewSource(hx.Seed()*7919 + int64(idx)*31))
 		w := newWorld(universe(nk, rng), capacity)
 		var events []map[string]interface{}
-		events = append(events, map[string]interface{}{"op": "reset", "cap": capacity})
+		events = append(events, map[string]interface{}{"op": "reset", "cap": capacity, "nk": nk})
 		var committed [][]int // reference content per height, from the behaviour
 		var witness *read
 		var witnessDev string
